@@ -228,9 +228,11 @@ CHECKS["C05"] = {
     "level_text": ("The finite space of Lightning answer scripts named by the property is enumerated completely (exhaustive: true) and each member is run against the real MeltTokens / GetMeltQuoteState / ProofsStateCheck code; "
                    "fault enumeration is the right level because the quantifier is a finite set of fault sequences."),
     "level_note": _WORLD_NOTE + "Answers are free scripts (not required to be consistent with each other), as the property's quantifier states. Fee ppk 100 and a 1% fee reserve are fixed.",
-    "assumptions": ["one input proof and one external invoice per script; fee ppk 100; fee reserve ceil(1%)"],
+    "assumptions": ["units via_cln / via_lnd: the node is an imitation (harness/clnfacade: REST answers; harness/lndfacade: rpc messages and grpc status errors) driven by the same Lightning model", "one input proof and one external invoice per script; fee ppk 100; fee reserve ceil(1%)"],
     "units": [
         plain("scripts", "^TestScripts$", qs=16, ts=16),
+        plain("via_cln", "^TestScriptsViaCLN$", qs=16, ts=16),
+        plain("via_lnd", "^TestScriptsViaLND$", qs=16, ts=16),
     ],
 }
 
